@@ -101,7 +101,18 @@ OnlineVerdict(fv) ==
     ELSE IF fv = "violation:printed-text" THEN "violation:output-record-differs"
     ELSE "ok"
 
-Emit(a, b) == PrintT(<<"V", tid, a>>) /\ PrintT(<<"W", tid, b>>) /\ PrintT(<<"X", tid, OnlineVerdict(a)>>)
+(* The machine has ONE kind of list: a list is what it denotes, however it was produced.  A run may therefore carry
+   a TWIN: the final observation of the same program with a list literal written as an equivalent lazily produced
+   list (a range).  Whatever the program does -- also where the machine itself is silent (impure bodies of lazily
+   evaluated lambdas) -- both runs must end with the same stack and the same printed text. *)
+TwinBad == /\ "twin" \in DOMAIN T
+           /\ Fin.raised \notin {"budget", "timeout", "RecursionError"}
+           /\ T.twin.raised \notin {"budget", "timeout", "RecursionError"}
+           /\ (T.twin.stack # Fin.stack \/ T.twin.out # Fin.out \/ T.twin.raised # Fin.raised)
+WithTwin(a) == IF TwinBad /\ SubSeq(a, 1, 9) # "violation" THEN "violation:eager-and-lazy-source-differ" ELSE a
+
+Emit(a0, b) == LET a == WithTwin(a0)
+               IN PrintT(<<"V", tid, a>>) /\ PrintT(<<"W", tid, b>>) /\ PrintT(<<"X", tid, OnlineVerdict(a)>>)
 
 ProbeStep ==
     /\ l < NE
